@@ -44,6 +44,14 @@ class C02(Check):
         if (rn + ".Bnd").lower() not in used:
             root["defs"].append({"name": rn + ".Bnd", "ver": [1, 0], "port": None, "ext": "dsdl", "dep": False,
                                  "secs": [{"union": rng.random() < 0.3 and len(items) >= 2, "hdr": None, "items": items, "seal": "sealed"}]})
+        if rng.random() < 0.2 and (rn + ".TagK").lower() not in used:
+            # a union with few variants and so many constants that variants + constants crosses a tag-width boundary
+            nv2 = rng.choice([2, 3])
+            nconst = rng.choice([253, 254, 255, 256]) - nv2 + rng.choice([0, 1, 2])
+            vit = [["f", rng.choice([["u", 8, "s"], ["u", 13, "t"], ["var", ["u", 8, "s"], 2]]), "v%d" % i] for i in range(nv2)]
+            cit = [["c", ["u", 16, "s"], "K%d" % i, str(i), [i, 1]] for i in range(nconst)]
+            root["defs"].append({"name": rn + ".TagK", "ver": [1, 0], "port": None, "ext": "dsdl", "dep": False,
+                                 "secs": [{"union": True, "hdr": None, "items": vit + cit, "seal": "sealed"}]})
         nv = rng.choice(VARIANTS)
         if (rn + ".Tag").lower() not in used:
             vitems = [["f", rng.choice([["bool"], ["u", 8, "s"], ["u", 13, "t"], ["var", ["u", 8, "s"], 2]]), "v%d" % i] for i in range(nv)]
